@@ -23,6 +23,8 @@ func runC02(w *World, r *Report) {
 	r.Rule("C02-R1", "rewrite completeness per message type", "every path from the arm to the local append passes stores CollectionID<-info.CollectionID, ShardName<-info.VChannel (Insert/Delete), PartitionID<-getPartitionID (Insert, DropPartition; Delete under the name test), PartitionIDs<-getPartitionIDs (Import); info = getCollectionTargetInfo(sourceCollectionID)", 10)
 	r.Rule("C02-R2", "positions name the downstream channel, keep the source id", "SetPosition literal: ChannelName<-info.PChannel|info.VChannel, MsgID/MsgGroup<-the original position; pack positions: cloned by copyMsgPositions, ChannelName<-r.targetPChannel before the non-forward return", 7)
 	r.Rule("C02-R3", "copy before write for dispatcher-shared messages", "DropCollection/DropPartition arms: field writes only on the value returned by copyDropTypeMsg", 2)
+	r.Rule("C02-R11", "the drop-message copy shares no payload with the input", "copyDropTypeMsg: no pointer / slice / map (or struct holding one) read from the input message is stored into the copy as it is; each goes through a call (typeutil.Clone) or a fresh slice", 4)
+	c02DropCopyDeep(w, r, "C02-R11")
 	r.Rule("C02-R4", "sorted one-to-one pairing", "ForeachChannel: length check first; both lists are sorted copies; callback gets sources[i], targets[i]", 3)
 	r.Rule("C02-R5", "channel-key provenance", "tsManager calls from replicateChannelHandler methods pass getTSManagerChannelKey(r.targetPChannel) (or r.replicateID, r.targetPChannel separately)", 12)
 	r.Rule("C02-R6", "per-shard target info", "model.TargetCollectionInfo literal in StartReadCollection: VChannel<-paired target vchannel, PChannel<-ToPhysicalChannel(it), CollectionID/PartitionInfo<-downstream collection info", 4)
@@ -692,4 +694,102 @@ func extraIDFuncs(w *World) []*ssa.Function {
 		}
 	}
 	return out
+}
+
+// c02DropCopyDeep: the message returned by copyDropTypeMsg is handed to one shard while the dispatcher's original is
+// handed to the others; the drop arms write the downstream ids into the copy's request. A reference-typed field of
+// the copy that is loaded straight from the input aliases the other shards' payload.
+func c02DropCopyDeep(w *World, r *Report, rule string) {
+	fn := w.Func(pkgReader, "", "copyDropTypeMsg")
+	if fn == nil {
+		r.Undecided(rule, "copyDropTypeMsg", 0, "anchor not found")
+		return
+	}
+	var holdsRef func(t types.Type, d int) bool
+	holdsRef = func(t types.Type, d int) bool {
+		switch u := t.Underlying().(type) {
+		case *types.Pointer, *types.Slice, *types.Map:
+			return true
+		case *types.Struct:
+			if d > 3 {
+				return false
+			}
+			for i := 0; i < u.NumFields(); i++ {
+				if holdsRef(u.Field(i).Type(), d+1) {
+					return true
+				}
+			}
+		}
+		return false
+	}
+	// fromInput: v is a load along a field path that starts at a parameter / captured variable (through type assertions)
+	var fromInput func(v ssa.Value, d int) bool
+	fromInput = func(v ssa.Value, d int) bool {
+		if d > 8 {
+			return false
+		}
+		switch x := v.(type) {
+		case *ssa.Parameter, *ssa.FreeVar:
+			return true
+		case *ssa.TypeAssert:
+			return fromInput(x.X, d+1)
+		case *ssa.ChangeInterface:
+			return fromInput(x.X, d+1)
+		case *ssa.ChangeType:
+			return fromInput(x.X, d+1)
+		case *ssa.Extract:
+			return fromInput(x.Tuple, d+1)
+		case *ssa.UnOp:
+			if x.Op == token.MUL {
+				return fromInput(x.X, d+1)
+			}
+		case *ssa.FieldAddr:
+			return fromInput(x.X, d+1)
+		case *ssa.Field:
+			return fromInput(x.X, d+1)
+		case *ssa.MakeInterface:
+			return fromInput(x.X, d+1)
+		case *ssa.Alloc:
+			// a local that is captured / address-taken: what is stored into it
+			for _, ref := range *x.Referrers() {
+				if st, ok := ref.(*ssa.Store); ok && st.Addr == x && fromInput(st.Val, d+1) {
+					return true
+				}
+			}
+		case *ssa.Phi:
+			for _, e := range x.Edges {
+				if fromInput(e, d+1) {
+					return true
+				}
+			}
+		}
+		return false
+	}
+	fns := append([]*ssa.Function{fn}, fn.AnonFuncs...)
+	n := 0
+	for _, g := range fns {
+		for _, b := range g.Blocks {
+			for _, in := range b.Instrs {
+				st, ok := in.(*ssa.Store)
+				if !ok {
+					continue
+				}
+				fa, isFA := st.Addr.(*ssa.FieldAddr)
+				if !isFA || !holdsRef(st.Val.Type(), 0) {
+					continue
+				}
+				name := "?"
+				if pt, isP := fa.X.Type().Underlying().(*types.Pointer); isP {
+					if stt, isS := pt.Elem().Underlying().(*types.Struct); isS && fa.Field < stt.NumFields() {
+						name = stt.Field(fa.Field).Name()
+					}
+				}
+				n++
+				r.Check(!fromInput(st.Val, 0), rule, "copyDropTypeMsg | "+name+" of the copy is not the input's", st.Pos(), "cloned / freshly built", "the copy of a drop message shares its "+name+" with the dispatcher's message: the ids one shard writes into it are seen by the other shards of the collection")
+			}
+		}
+	}
+	if n == 0 {
+		r.Undecided(rule, "copyDropTypeMsg", fn.Pos(), "no reference-typed field of a copy is stored")
+	}
 }
